@@ -1420,3 +1420,223 @@ Example af_term_example :
   let s := trun (proc_fn ex_flags) ex_g ex_pre [2%nat] tinit (map TBase ex_sched ++ [TFlush]) in
   flushed s = true /\ fin (base s) = Some 0 /\ tsteps (proc_fn ex_flags) ex_g ex_pre [2%nat] tinit (map TBase ex_sched ++ [TFlush]) = 11%nat.
 Proof. vm_compute. repeat split; reflexivity. Qed.
+
+(* ======================================================================================== *)
+(* G. Committer<T>: a data is published exactly once, by release()/destruction of its        *)
+(*    unique valid committer, never by a move                                                 *)
+(* ======================================================================================== *)
+Lemma cmk_move_rel : (cm_move_calls_release =? 1) = false. Proof. reflexivity. Qed.
+Lemma cmk_move_valid : (cm_move_clears_valid =? 1) = true. Proof. reflexivity. Qed.
+Lemma cmk_move_data : (cm_move_clears_data =? 1) = true. Proof. reflexivity. Qed.
+Lemma cmk_asg_data : (cm_assign_swaps_data =? 1) = true. Proof. reflexivity. Qed.
+Lemma cmk_asg_valid : (cm_assign_swaps_valid =? 1) = true. Proof. reflexivity. Qed.
+Lemma cmk_asg_rel : (cm_assign_releases_other =? 1) = true. Proof. reflexivity. Qed.
+Lemma cmk_dtor : (cm_dtor_releases =? 1) = true. Proof. reflexivity. Qed.
+Lemma cmk_can_pub : (cm_cancel_publishes =? 1) = false. Proof. reflexivity. Qed.
+Lemma cmk_can_valid : (cm_cancel_clears_valid =? 1) = true. Proof. reflexivity. Qed.
+Lemma cmk_get_guard : forall b, cm_get_guard (b2z b) = b. Proof. intros [|]; reflexivity. Qed.
+
+Lemma c_release_spec : forall c m,
+  c_release c m = if cmv c then ({| cmd := cmd c; cmv := false |}, match cmd c with Some d => publish m d | None => m end, is_some (cmd c))
+                  else (c, m, false).
+Proof. intros [d [|]] m; reflexivity. Qed.
+
+Lemma cupd_same : forall m d x, cupd m d x d = x.
+Proof. intros. unfold cupd. now rewrite Nat.eqb_refl. Qed.
+Lemma cupd_other : forall m d x k, k <> d -> cupd m d x k = m k.
+Proof. intros m d x k H. unfold cupd. destruct (k =? d)%nat eqn:E; [apply Nat.eqb_eq in E; contradiction | reflexivity]. Qed.
+
+Lemma nvalid_app : forall d l c, nvalid d (l ++ [c]) = (nvalid d l + hv c d)%nat.
+Proof. induction l as [|x l IH]; intro c; cbn [app nvalid]; [lia | rewrite IH; lia]. Qed.
+Lemma nvalid_lset : forall d l i c c', nth_error l i = Some c -> (nvalid d (lset i c' l) + hv c d = nvalid d l + hv c' d)%nat.
+Proof.
+  induction l as [|x l IH]; intros [|i] c c' H; cbn in H; try discriminate.
+  - inversion H; subst. cbn [lset nvalid]. lia.
+  - cbn [lset nvalid]. specialize (IH i c c' H). lia.
+Qed.
+Lemma hv_le_nvalid : forall d l c, In c l -> (hv c d <= nvalid d l)%nat.
+Proof. induction l as [|x l IH]; intros c Hin; [destruct Hin|]. destruct Hin as [->|H]; cbn [nvalid]; [lia | specialize (IH c H); lia]. Qed.
+Lemma In_lset : forall A (l : list A) i x y, In y (lset i x l) -> y = x \/ In y l.
+Proof.
+  induction l as [|a l IH]; intros [|i] x y H; cbn in *; try tauto.
+  - destruct H as [<-|H]; auto.
+  - destruct H as [<-|H]; auto. destruct (IH i x y H); auto.
+Qed.
+Lemma hv_invalid : forall c d, cmv c = false -> hv c d = 0%nat.
+Proof. intros c d H. unfold hv. now rewrite H. Qed.
+Lemma hv_valid : forall c d d0, cmv c = true -> cmd c = Some d0 -> hv c d = (if (d0 =? d)%nat then 1 else 0)%nat.
+Proof. intros c d d0 H1 H2. unfold hv. now rewrite H1, H2. Qed.
+
+Definition pinv (s : pst) : Prop :=
+  (forall d, (nvalid d (cms s) + dpub (cells s d) + dcan (cells s d) = if dacq (cells s d) then 1 else 0)%nat) /\
+  (forall d, dlate (cells s d) = false) /\ pmove s = false /\
+  (forall d, (1 <= dpub (cells s d))%nat -> dpubval (cells s d) = dval (cells s d)) /\
+  (forall c, In c (cms s) -> cmv c = true -> cmd c <> None).
+
+Lemma pinv_init : pinv pinit.
+Proof. unfold pinv, pinit; cbn. repeat split; auto; try lia; try (intros c []); try contradiction. Qed.
+
+(* releasing the committer at index i (whatever list surgery l -> l1 happened before, as long as the counts add up) *)
+Lemma release_step : forall (l l1 : list cmt) (m : nat -> dcell) i c (k : nat -> nat),
+  nth_error l1 i = Some c ->
+  (forall d, (nvalid d l1 + dpub (m d) + dcan (m d) = if dacq (m d) then 1 else 0)%nat) ->
+  (forall d, dlate (m d) = false) -> (forall d, (1 <= dpub (m d))%nat -> dpubval (m d) = dval (m d)) ->
+  (forall x, In x l1 -> cmv x = true -> cmd x <> None) ->
+  let '(c', m', _) := c_release c m in
+  (forall d, (nvalid d (lset i c' l1) + dpub (m' d) + dcan (m' d) = if dacq (m' d) then 1 else 0)%nat) /\
+  (forall d, dlate (m' d) = false) /\ (forall d, (1 <= dpub (m' d))%nat -> dpubval (m' d) = dval (m' d)) /\
+  (forall x, In x (lset i c' l1) -> cmv x = true -> cmd x <> None).
+Proof.
+  intros l l1 m i c k Hi P1 P2 P4 P5. rewrite c_release_spec. destruct (cmv c) eqn:Ev.
+  - assert (Hin : In c l1) by (eapply nth_error_In; eauto).
+    destruct (cmd c) as [d0|] eqn:Ed; [|exfalso; now apply (P5 c Hin Ev)].
+    split; [|split; [|split]].
+    + intro d. pose proof (nvalid_lset d l1 i c {| cmd := Some d0; cmv := false |} Hi) as Hn.
+      rewrite (hv_invalid {| cmd := Some d0; cmv := false |} d eq_refl) in Hn. rewrite (hv_valid c d d0 Ev Ed) in Hn.
+      unfold publish. destruct (Nat.eq_dec d d0) as [->|Hne].
+      * rewrite cupd_same. cbn [dpub dcan dacq]. rewrite Nat.eqb_refl in Hn. specialize (P1 d0). lia.
+      * rewrite cupd_other by assumption. assert ((d0 =? d)%nat = false) by (apply Nat.eqb_neq; congruence). rewrite H in Hn. specialize (P1 d). lia.
+    + intro d. unfold publish. destruct (Nat.eq_dec d d0) as [->|Hne]; [rewrite cupd_same; cbn [dlate]; apply P2 | rewrite cupd_other by assumption; apply P2].
+    + intros d Hd. unfold publish in *. destruct (Nat.eq_dec d d0) as [->|Hne].
+      * rewrite cupd_same in *. cbn [dpub dpubval dval] in *. destruct (dpub (m d0)) eqn:E; [reflexivity | apply P4; lia].
+      * rewrite cupd_other in * by assumption. now apply P4.
+    + intros x Hx Hxv. apply In_lset in Hx. destruct Hx as [->|Hx]; [discriminate | now apply P5].
+  - rewrite (lset_same _ l1 i c Hi). auto.
+Qed.
+
+Lemma pinv_step : forall s o s', pinv s -> pstep s o = Some s' -> pinv s'.
+Proof.
+  intros s o s' (P1 & P2 & P3 & P4 & P5) Hst.
+  destruct o as [d0 | i | j i | i v | i | i | i | i]; cbn [pstep] in Hst.
+  - (* PNew *)
+    inversion Hst; subst s'; clear Hst. unfold pinv; cbn [cms cells pmove].
+    split; [|split; [|split; [assumption|split]]].
+    + intro d. rewrite nvalid_app. destruct (Nat.eq_dec d d0) as [->|Hne].
+      * rewrite cupd_same. cbn [dpub dcan dacq]. specialize (P1 d0). unfold hv; cbn [cmv cmd]. rewrite Nat.eqb_refl.
+        destruct (dacq (cells s d0)); cbn [negb andb]; lia.
+      * rewrite cupd_other by assumption. unfold hv; cbn [cmv cmd].
+        assert ((d0 =? d)%nat = false) by (apply Nat.eqb_neq; congruence). rewrite H, andb_false_r. specialize (P1 d). lia.
+    + intro d. destruct (Nat.eq_dec d d0) as [->|Hne]; [rewrite cupd_same; cbn [dlate]; apply P2 | rewrite cupd_other by assumption; apply P2].
+    + intros d Hd. destruct (Nat.eq_dec d d0) as [->|Hne]; [rewrite cupd_same in *; cbn [dpub dpubval dval] in *; now apply P4 | rewrite cupd_other in * by assumption; now apply P4].
+    + intros c Hc Hv. apply in_app_or in Hc. destruct Hc as [Hc|[<-|[]]]; [now apply P5 | discriminate].
+  - (* PMove: transfer, no publication *)
+    destruct (nth_error (cms s) i) as [c|] eqn:Ei; [|discriminate].
+    rewrite cmk_move_rel, cmk_move_valid, cmk_move_data in Hst. inversion Hst; subst s'; clear Hst.
+    unfold pinv; cbn [cms cells pmove]. split; [|split; [assumption|split; [now rewrite P3|split; [assumption|]]]].
+    + intro d. rewrite nvalid_app. pose proof (nvalid_lset d (cms s) i c {| cmd := None; cmv := false |} Ei) as Hn.
+      rewrite (hv_invalid {| cmd := None; cmv := false |} d eq_refl) in Hn. specialize (P1 d). lia.
+    + intros x Hx Hv. apply in_app_or in Hx. destruct Hx as [Hx|[<-|[]]].
+      * apply In_lset in Hx. destruct Hx as [->|Hx]; [discriminate | now apply P5].
+      * apply P5; [eapply nth_error_In; eauto | assumption].
+  - (* PAssign: swap, then the overwritten content is released *)
+    destruct (j =? i)%nat eqn:Eji; [discriminate|]. apply Nat.eqb_neq in Eji.
+    destruct (nth_error (cms s) j) as [cj|] eqn:Ej; [|discriminate]. destruct (nth_error (cms s) i) as [ci|] eqn:Ei; [|discriminate].
+    rewrite cmk_asg_data, cmk_asg_valid, cmk_asg_rel in Hst.
+    set (l1 := lset i {| cmd := cmd cj; cmv := cmv cj |} (lset j {| cmd := cmd ci; cmv := cmv ci |} (cms s))).
+    assert (Hi1 : nth_error l1 i = Some {| cmd := cmd cj; cmv := cmv cj |}).
+    { unfold l1. apply lset_nth_same. rewrite lset_length. apply nth_error_Some. congruence. }
+    assert (Hcnt : forall d, nvalid d l1 = nvalid d (cms s)).
+    { intro d. unfold l1.
+      assert (Hij : nth_error (lset j {| cmd := cmd ci; cmv := cmv ci |} (cms s)) i = Some ci) by (rewrite lset_nth_other by congruence; exact Ei).
+      pose proof (nvalid_lset d _ i ci {| cmd := cmd cj; cmv := cmv cj |} Hij) as H1.
+      pose proof (nvalid_lset d (cms s) j cj {| cmd := cmd ci; cmv := cmv ci |} Ej) as H2.
+      assert (hv {| cmd := cmd cj; cmv := cmv cj |} d = hv cj d) by reflexivity.
+      assert (hv {| cmd := cmd ci; cmv := cmv ci |} d = hv ci d) by reflexivity. lia. }
+    assert (H5 : forall x, In x l1 -> cmv x = true -> cmd x <> None).
+    { intros x Hx Hv. unfold l1 in Hx. apply In_lset in Hx. destruct Hx as [->|Hx].
+      - cbn in *. apply (P5 cj); [eapply nth_error_In; eauto | assumption].
+      - apply In_lset in Hx. destruct Hx as [->|Hx]; [cbn in *; apply (P5 ci); [eapply nth_error_In; eauto | assumption] | now apply P5]. }
+    pose proof (release_step (cms s) l1 (cells s) i _ (fun x => x) Hi1 (fun d => eq_trans (f_equal (fun z => (z + _ + _)%nat) (Hcnt d)) (P1 d)) P2 P4 H5) as Hr.
+    assert (Hl : lset i {| cmd := cmd cj; cmv := cmv cj |} (lset j {| cmd := cmd ci; cmv := cmv ci |} (cms s)) = l1) by reflexivity.
+    destruct (c_release {| cmd := cmd cj; cmv := cmv cj |} (cells s)) as [[c' m'] pub] eqn:Er.
+    inversion Hst; subst s'; clear Hst. destruct Hr as (R1 & R2 & R4 & R5).
+    assert (Hll : lset i c' (lset j {| cmd := cmd ci; cmv := cmv ci |} (cms s)) = lset i c' l1).
+    { unfold l1. clear. generalize (lset j {| cmd := cmd ci; cmv := cmv ci |} (cms s)). intro l. revert i.
+      induction l as [|a l IH]; intros [|i]; cbn; try reflexivity. f_equal. apply IH. }
+    unfold pinv; cbn [cms cells pmove]. rewrite Hll. repeat split; assumption.
+  - (* PWrite *)
+    destruct (nth_error (cms s) i) as [c|] eqn:Ei; [|discriminate]. inversion Hst; subst s'; clear Hst.
+    rewrite cmk_get_guard. unfold pinv; cbn [cms cells pmove].
+    destruct (cmv c) eqn:Ev; [|repeat split; assumption].
+    assert (Hin : In c (cms s)) by (eapply nth_error_In; eauto).
+    destruct (cmd c) as [d0|] eqn:Ed; [|repeat split; assumption].
+    assert (Hp0 : dpub (cells s d0) = 0%nat).
+    { pose proof (hv_le_nvalid d0 _ _ Hin) as Hle. rewrite (hv_valid c d0 d0 Ev Ed), Nat.eqb_refl in Hle. specialize (P1 d0).
+      destruct (dacq (cells s d0)); lia. }
+    unfold set_content. split; [|split; [|split; [assumption|split; [|assumption]]]].
+    + intro d. destruct (Nat.eq_dec d d0) as [->|Hne]; [rewrite cupd_same; cbn [dpub dcan dacq]; apply P1 | rewrite cupd_other by assumption; apply P1].
+    + intro d. destruct (Nat.eq_dec d d0) as [->|Hne]; [rewrite cupd_same; cbn [dlate]; rewrite Hp0, P2; reflexivity | rewrite cupd_other by assumption; apply P2].
+    + intros d Hd. destruct (Nat.eq_dec d d0) as [->|Hne]; [rewrite cupd_same in Hd; cbn [dpub] in Hd; lia | rewrite cupd_other in * by assumption; now apply P4].
+  - (* PClear *)
+    destruct (nth_error (cms s) i) as [c|] eqn:Ei; [|discriminate]. inversion Hst; subst s'; clear Hst.
+    unfold pinv; cbn [cms cells pmove].
+    destruct (cmv c) eqn:Ev; [|repeat split; assumption].
+    assert (Hin : In c (cms s)) by (eapply nth_error_In; eauto).
+    destruct (cmd c) as [d0|] eqn:Ed; [|repeat split; assumption].
+    assert (Hp0 : dpub (cells s d0) = 0%nat).
+    { pose proof (hv_le_nvalid d0 _ _ Hin) as Hle. rewrite (hv_valid c d0 d0 Ev Ed), Nat.eqb_refl in Hle. specialize (P1 d0).
+      destruct (dacq (cells s d0)); lia. }
+    unfold set_content. split; [|split; [|split; [assumption|split; [|assumption]]]].
+    + intro d. destruct (Nat.eq_dec d d0) as [->|Hne]; [rewrite cupd_same; cbn [dpub dcan dacq]; apply P1 | rewrite cupd_other by assumption; apply P1].
+    + intro d. destruct (Nat.eq_dec d d0) as [->|Hne]; [rewrite cupd_same; cbn [dlate]; rewrite Hp0, P2; reflexivity | rewrite cupd_other by assumption; apply P2].
+    + intros d Hd. destruct (Nat.eq_dec d d0) as [->|Hne]; [rewrite cupd_same in Hd; cbn [dpub] in Hd; lia | rewrite cupd_other in * by assumption; now apply P4].
+  - (* PRelease *)
+    destruct (nth_error (cms s) i) as [c|] eqn:Ei; [|discriminate].
+    pose proof (release_step (cms s) (cms s) (cells s) i c (fun x => x) Ei P1 P2 P4 P5) as Hr.
+    destruct (c_release c (cells s)) as [[c' m'] pub]. inversion Hst; subst s'; clear Hst. destruct Hr as (R1 & R2 & R4 & R5).
+    unfold pinv; cbn [cms cells pmove]. repeat split; assumption.
+  - (* PDtor *)
+    destruct (nth_error (cms s) i) as [c|] eqn:Ei; [|discriminate]. rewrite cmk_dtor in Hst.
+    pose proof (release_step (cms s) (cms s) (cells s) i c (fun x => x) Ei P1 P2 P4 P5) as Hr.
+    destruct (c_release c (cells s)) as [[c' m'] pub]. inversion Hst; subst s'; clear Hst. destruct Hr as (R1 & R2 & R4 & R5).
+    unfold pinv; cbn [cms cells pmove]. repeat split; assumption.
+  - (* PCancel *)
+    destruct (nth_error (cms s) i) as [c|] eqn:Ei; [|discriminate].
+    destruct (cmv c) eqn:Ev; [|inversion Hst; subst s'; unfold pinv; repeat split; assumption].
+    destruct (cmd c) as [d0|] eqn:Ed; [|inversion Hst; subst s'; unfold pinv; repeat split; assumption].
+    rewrite cmk_can_pub, cmk_can_valid in Hst. inversion Hst; subst s'; clear Hst.
+    unfold pinv; cbn [cms cells pmove]. split; [|split; [|split; [assumption|split]]].
+    + intro d. pose proof (nvalid_lset d (cms s) i c {| cmd := None; cmv := false |} Ei) as Hn.
+      rewrite (hv_invalid {| cmd := None; cmv := false |} d eq_refl) in Hn. rewrite (hv_valid c d d0 Ev Ed) in Hn.
+      destruct (Nat.eq_dec d d0) as [->|Hne].
+      * rewrite cupd_same. cbn [dpub dcan dacq]. rewrite Nat.eqb_refl in Hn. specialize (P1 d0). lia.
+      * rewrite cupd_other by assumption. assert ((d0 =? d)%nat = false) by (apply Nat.eqb_neq; congruence). rewrite H in Hn. specialize (P1 d). lia.
+    + intro d. destruct (Nat.eq_dec d d0) as [->|Hne]; [rewrite cupd_same; cbn [dlate]; apply P2 | rewrite cupd_other by assumption; apply P2].
+    + intros d Hd. destruct (Nat.eq_dec d d0) as [->|Hne]; [rewrite cupd_same in *; cbn [dpub dpubval dval] in *; now apply P4 | rewrite cupd_other in * by assumption; now apply P4].
+    + intros x Hx Hv. apply In_lset in Hx. destruct Hx as [->|Hx]; [discriminate | now apply P5].
+Qed.
+
+Lemma pinv_run : forall l s, pinv s -> pinv (prun s l).
+Proof.
+  induction l as [|o r IH]; intros s Hs; cbn [prun]; [assumption|].
+  apply IH. destruct (pstep s o) as [s'|] eqn:E; [eapply pinv_step; eauto | assumption].
+Qed.
+
+Theorem af_publish_once : forall l d, let s := prun pinit l in
+  (dpub (cells s d) <= 1)%nat /\                                   (* published at most once *)
+  pmove s = false /\                                               (* never by a move construction *)
+  dlate (cells s d) = false /\                                     (* content never changes after publication *)
+  ((1 <= dpub (cells s d))%nat -> dpubval (cells s d) = dval (cells s d)) /\
+  (nvalid d (cms s) <= 1)%nat /\                                   (* at most one valid committer per data *)
+  (dacq (cells s d) = true -> nvalid d (cms s) = 0%nat -> dcan (cells s d) = 0%nat -> dpub (cells s d) = 1%nat).
+                                                                   (* exactly once when its committers are gone *)
+Proof.
+  intros l d s. subst s. destruct (pinv_run l _ pinv_init) as (P1 & P2 & P3 & P4 & _). specialize (P1 d).
+  repeat split; auto; try (destruct (dacq _); lia).
+Qed.
+
+(* a move construction by itself publishes nothing and leaves the source unable to publish *)
+Theorem af_move_transfers : forall s i c s', nth_error (cms s) i = Some c -> pstep s (PMove i) = Some s' ->
+  cells s' = cells s /\ nth_error (cms s') i = Some {| cmd := None; cmv := false |} /\ nth_error (cms s') (length (cms s)) = Some c.
+Proof.
+  intros s i c s' Hi Hst. cbn [pstep] in Hst. rewrite Hi, cmk_move_rel, cmk_move_valid, cmk_move_data in Hst. inversion Hst; subst s'; clear Hst.
+  cbn [cells cms]. assert (Hl : (i < length (cms s))%nat) by (apply nth_error_Some; congruence).
+  split; [reflexivity|]. split.
+  - rewrite nth_error_app1 by (now rewrite lset_length). now apply lset_nth_same.
+  - rewrite nth_error_app2 by (rewrite lset_length; lia). rewrite lset_length, Nat.sub_diag. reflexivity.
+Qed.
+
+Example af_publish_example :
+  let s := prun pinit [PNew 0; PMove 0; PWrite 1 5; PNew 1; PAssign 2 1; PWrite 2 7; PDtor 0; PDtor 1; PDtor 2]%nat in
+  dpub (cells s 0%nat) = 1%nat /\ dpubval (cells s 0%nat) = Some 7 /\ dpub (cells s 1%nat) = 1%nat /\ dpubval (cells s 1%nat) = None.
+Proof. vm_compute. repeat split; reflexivity. Qed.
